@@ -152,7 +152,7 @@ def run_job(pid, job, seed, tier, work):
         if rc != 0 or not os.path.exists(out):
             sig, detail = classify_crash(err)
             if sig:
-                res["violations"].append({"property": job.get("crash_property", pid), "sig": "%s:%s" % (job.get("crash_property", pid), sig),
+                res["violations"].append({"property": (job.get("crash_property") or pid), "sig": "%s:%s" % ((job.get("crash_property") or pid), sig),
                                           "detail": detail, "params": {"scenario": job["scenario"], "ep_seed": seed, "shard": i,
                                                                         "shards": shards, "cmd": " ".join(cmd)},
                                           "history": err.splitlines()[-60:], "job": job["name"]})
